@@ -878,6 +878,57 @@ def check_writer_keeps_text(ctx, m, wt) -> None:
     ctx.floor(rule, n, 15, "writer converters and their helpers")
 
 
+def check_one_text_encoding(ctx, m) -> None:
+    """Writers: text-mode open(.., 'w') of dosini.py; readers: the encoding handed to ConfigParser.read by the parser subclass (its
+    fallback when the caller gives none) and by explicit callers.  A byte above 0x7F written in one encoding and decoded in another comes
+    back as different characters without any error ('é' -> 'Ã©'), for every value of the instance at once."""
+    import codecs
+
+    def norm(e: Optional[ast.AST]) -> Optional[str]:
+        if e is None or (isinstance(e, ast.Constant) and e.value is None):
+            return "utf-8"          # platform default: see ctx.assume below
+        if isinstance(e, ast.Constant) and isinstance(e.value, str):
+            try:
+                return codecs.lookup(e.value).name
+            except LookupError:
+                return "?" + e.value
+        return None                 # not a constant: undecided
+    writers = []
+    for q, f in m.functions.items():
+        for c in source.calls_in(f, include_nested=False):
+            if call_name(c) in ("open", "io.open", "codecs.open") and len(c.args) >= 2 and isinstance(c.args[1], ast.Constant) \
+                    and isinstance(c.args[1].value, str) and any(ch in c.args[1].value for ch in "wa") and "b" not in c.args[1].value:
+                enc = next((k.value for k in c.keywords if k.arg == "encoding"), None)
+                writers.append((c, norm(enc)))
+    readers = []
+    for q, f in m.functions.items():
+        for c in source.calls_in(f, include_nested=False):
+            if last_attr(c) == "read" and any(k.arg == "encoding" for k in c.keywords):
+                ev = next(k.value for k in c.keywords if k.arg == "encoding")
+                vals = [ev]
+                if isinstance(ev, ast.Name):
+                    vals = match.assigned_value(f, ev.id) or [ev]
+                for v in vals:
+                    # `given or <fallback>`: the fallback is what a caller that names no encoding gets
+                    if isinstance(v, ast.BoolOp) and isinstance(v.op, ast.Or):
+                        v = v.values[-1]
+                    if isinstance(v, ast.Name) and v.id in {a.arg for a in f.args.args}:
+                        continue            # the caller's own choice, passed through
+                    readers.append((c, norm(v)))
+    ctx.floor("C19.R14-one-text-encoding", len(writers), 5, "text-mode writers in dosini.py")
+    ctx.floor("C19.R14-one-text-encoding", len(readers), 1, "encodings handed to ConfigParser.read in dosini.py")
+    ctx.assume("a text file opened without an encoding uses the platform default, which is UTF-8 (Python >= 3.7 under a UTF-8 or C/POSIX locale)")
+    wenc = {e for (_, e) in writers if e is not None}
+    for (c, e) in readers:
+        ok = e is None or wenc <= {e}
+        ctx.ob("C19.R14-one-text-encoding", c, ok,
+               "the reader decodes with %s, the writers encode with %s" % (e or "an encoding chosen at run time", sorted(wenc)) if ok else
+               "the reader decodes the configuration files as %s while the writers encode them as %s: every byte above 0x7F comes back as other "
+               "characters, silently ('é' in an argument, a variable, an environment value or a description is loaded as 'Ã©'), and the damage "
+               "compounds with every further write-then-load" % (e, "/".join(sorted(wenc))),
+               construct="encoding of %s equals the writers' encoding" % short(c, 50))
+
+
 def run(ctx) -> None:
     ctx.explanation = (
         "Literal-table agreement between the DOSINI writers and the reader: every option the dumper writes under key k "
@@ -911,6 +962,8 @@ def run(ctx) -> None:
              "when the look-up of THAT name failed: no statement that can raise follows the name's look-up inside the same try body "
              "(otherwise a value that is present in the description is dropped because another one is absent)")
     ctx.rule("C19.R4-reader-without-writer", "options parsed but never written are exactly the frozen list")
+    ctx.rule("C19.R14-one-text-encoding", "the encoding the reader decodes the configuration files with is the one the writers encode them with "
+             "(an unspecified encoding is the platform default, UTF-8 here)")
 
     m = ctx.repo.module(DOSINI)
     HELPERS.clear()
@@ -1162,3 +1215,6 @@ def run(ctx) -> None:
         ctx.ob("C19.R4-reader-without-writer", cls, False,
                "key '%s' is a known option (removed from the variables when parsing) but no branch of parse_component "
                "handles it: any value written under it is dropped" % k, construct="known key %s without a reader branch" % k)
+
+    # R14: one text encoding on both sides -------------------------------------------------------------
+    check_one_text_encoding(ctx, m)
